@@ -99,7 +99,7 @@ theorem throwAt_handler_alive (x : S) (h : Healthy x) (hc : x.cancelReq = false)
 theorem step_alive (s : S) (ev : Ev) (hev : Ev.queryOnly ev = true) (h : Alive s) : Alive (step s ev) := by
   obtain ⟨hh, hm⟩ := h
   cases ev with
-  | handshake _ => simp [Ev.queryOnly] at hev
+  | handshake _ _ _ => simp [Ev.queryOnly] at hev
   | cmd _ => simp [Ev.queryOnly] at hev
   | eof => simp [Ev.queryOnly] at hev
   | lose => simp [Ev.queryOnly] at hev
@@ -119,6 +119,7 @@ theorem step_alive (s : S) (ev : Ev) (hev : Ev.queryOnly ev = true) (h : Alive s
         | handler => exact runHandler_alive rest s hh (by simpa using hcr) hm.2.1 hm.1
         | cmdArm => exact absurd hm (by simp)
         | connPhase => exact absurd hm (by simp)
+        | initing => exact absurd hm (by simp)
         | connArm => exact absurd hm (by simp)
         | startArm => exact absurd hm (by simp)
         | closing => exact absurd hm (by simp)
@@ -137,6 +138,7 @@ theorem step_alive (s : S) (ev : Ev) (hev : Ev.queryOnly ev = true) (h : Alive s
         | handler => exact runHandler_alive rest _ hh (by simpa using hcr) hm.2.1 hm.1
         | cmdArm => exact runCmdArm_alive rest _ hh hm.2.1 hm.2.2 hm.1
         | connPhase => exact absurd hm (by simp)
+        | initing => exact absurd hm (by simp)
         | connArm => exact absurd hm (by simp)
         | startArm => exact absurd hm (by simp)
         | closing => exact absurd hm (by simp)
@@ -168,6 +170,7 @@ theorem step_alive (s : S) (ev : Ev) (hev : Ev.queryOnly ev = true) (h : Alive s
               | drain => rw [hm.2.1] at hacc; simp at hacc
               | future => exact absurd hm (by simp)
             | connPhase => exact absurd hm (by simp)
+            | initing => exact absurd hm (by simp)
             | connArm => exact absurd hm (by simp)
             | startArm => exact absurd hm (by simp)
             | closing => exact absurd hm (by simp)
@@ -195,6 +198,7 @@ theorem step_alive (s : S) (ev : Ev) (hev : Ev.queryOnly ev = true) (h : Alive s
           | drain => rw [hm.2.2] at hcr; cases hcr
           | future => exact absurd hm (by simp)
         | connPhase => exact absurd hm (by simp)
+        | initing => exact absurd hm (by simp)
         | connArm => exact absurd hm (by simp)
         | startArm => exact absurd hm (by simp)
         | closing => exact absurd hm (by simp)
@@ -237,6 +241,7 @@ theorem kill_connection_terminates (s : S) (h : s.phase ≠ .closed) :
     simp only
     cases lvl with
     | connPhase => simp only [throwAt, throwConn]; exact release_terminating _ _
+    | initing => simp only [throwAt, throwConn]; exact release_terminating _ _
     | connArm => exact release_terminating _ _
     | handler =>
       simp only [throwAt, throwHandler]
